@@ -3,6 +3,7 @@ package genlab
 import (
 	"encoding/json"
 	"fmt"
+	"net/http"
 	"net/url"
 	"reflect"
 	"sort"
@@ -16,6 +17,7 @@ import (
 // PSpecJ is a query parameter of the modelled fragment, in the encoding of the Lean driver.
 type PSpecJ struct {
 	Name     string   `json:"name"`
+	In       string   `json:"in"` // query | formData | header
 	Required bool     `json:"required"`
 	IsArray  bool     `json:"isArray"`
 	CF       string   `json:"cf"`
@@ -76,7 +78,7 @@ func (p *PSpecJ) scalarSchema() map[string]interface{} {
 }
 
 func (p *PSpecJ) render() map[string]interface{} {
-	m := map[string]interface{}{"name": p.Name, "in": "query"}
+	m := map[string]interface{}{"name": p.Name, "in": p.In}
 	if p.Required {
 		m["required"] = true
 	}
@@ -103,11 +105,14 @@ func (p *PSpecJ) render() map[string]interface{} {
 	return m
 }
 
-func genPSpec(r *rng.R, name string) *PSpecJ {
-	p := &PSpecJ{Name: name, Required: r.Chance(1, 3), Ty: r.Pick([]string{"str", "str", "int64", "int32", "bool"})}
+func genPSpec(r *rng.R, name, in string) *PSpecJ {
+	p := &PSpecJ{Name: name, In: in, Required: r.Chance(1, 3), Ty: r.Pick([]string{"str", "str", "int64", "int32", "bool"})}
 	if r.Chance(2, 5) && p.Ty != "bool" {
 		p.IsArray = true
 		p.CF = r.Pick([]string{"", "csv", "pipes", "ssv", "tsv"})
+		if in != "header" && r.Chance(1, 3) {
+			p.CF = "multi"
+		}
 		if r.Chance(1, 2) {
 			p.MinItems = ip(1 + r.Intn(2))
 		}
@@ -143,35 +148,72 @@ func genPSpec(r *rng.R, name string) *PSpecJ {
 	return p
 }
 
-// a value that satisfies the spec (used for the parameters that are not under test)
-func (p *PSpecJ) validRaw() string {
-	one := func(i int) string {
-		switch p.Ty {
-		case "str":
-			if len(p.EnumS) > 0 {
-				return p.EnumS[i%len(p.EnumS)]
+// validPool lists scalar texts that satisfy every item-level constraint of the parameter.
+func (p *PSpecJ) validPool() []string {
+	var out []string
+	switch p.Ty {
+	case "bool":
+		return []string{"true", "false"}
+	case "str":
+		cands := []string{"abc", "abd", "abe", "ab", "abcd", "b", "abcde"}
+		if len(p.EnumS) > 0 {
+			cands = p.EnumS
+		}
+		for _, c := range cands {
+			if (p.MinLen == nil || len(c) >= *p.MinLen) && (p.MaxLen == nil || len(c) <= *p.MaxLen) {
+				out = append(out, c)
 			}
-			return []string{"abc", "abd", "abe"}[i%3]
-		case "bool":
-			return "true"
 		}
+	default:
+		var cands []int64
 		if len(p.EnumI) > 0 {
-			return fmt.Sprint(p.EnumI[i%len(p.EnumI)])
+			cands = p.EnumI
+		} else {
+			for i := int64(3); i < 20; i++ {
+				cands = append(cands, i)
+			}
+			cands = append(cands, 0, 1, 2)
 		}
-		return fmt.Sprint(3 + i)
+		for _, c := range cands {
+			if p.MinI != nil && (c < *p.MinI || (p.ExMin && c == *p.MinI)) {
+				continue
+			}
+			if p.MaxI != nil && (c > *p.MaxI || (p.ExMax && c == *p.MaxI)) {
+				continue
+			}
+			out = append(out, fmt.Sprint(c))
+		}
+	}
+	return out
+}
+
+// a value that satisfies the spec (used for the parameters that are not under test); nil when the constraints contradict each other
+func (p *PSpecJ) validRaw() []string {
+	pool := p.validPool()
+	if len(pool) == 0 {
+		return nil
 	}
 	if !p.IsArray {
-		return one(0)
+		return pool[:1]
 	}
 	n := 2
 	if p.MinItems != nil && *p.MinItems > n {
 		n = *p.MinItems
 	}
+	if p.MaxItems != nil && *p.MaxItems < n {
+		return nil
+	}
+	if p.Unique && len(pool) < n {
+		return nil
+	}
 	var items []string
 	for i := 0; i < n; i++ {
-		items = append(items, one(i))
+		items = append(items, pool[i%len(pool)])
 	}
-	return strings.Join(items, sepFor(p.CF))
+	if p.CF == "multi" {
+		return items
+	}
+	return []string{strings.Join(items, sepFor(p.CF))}
 }
 
 func sepFor(cf string) string {
@@ -189,7 +231,7 @@ func sepFor(cf string) string {
 // raw values to try for a parameter: nil = key absent
 func (p *PSpecJ) probes(r *rng.R) [][]string {
 	sep := sepFor(p.CF)
-	out := [][]string{nil, {""}, {p.validRaw()}, {"zzz", p.validRaw()}}
+	out := [][]string{nil, {""}, p.validRaw(), append([]string{"zzz"}, p.validRaw()...)}
 	scal := []string{"a", "ab", "abcdefgh", "0", "1", "7", "-1", "15", "16", "2147483648", "9223372036854775808", "+3", "1.5", "x1", " 3", "true", "TRUE", "no", "maybe", "é", "b"}
 	if !p.IsArray {
 		for _, s := range scal {
@@ -198,6 +240,12 @@ func (p *PSpecJ) probes(r *rng.R) [][]string {
 		return out
 	}
 	items := [][]string{{"a"}, {"ab", "abc"}, {"ab", "ab"}, {"1", "2"}, {"1", "1"}, {"1", "2", "3", "4"}, {"7", "x"}, {"a", "", "b"}, {" 1 ", "2"}, {"ab ", "b"}, {"", ""}, {"3"}, {"16", "1"}, {"abcdefgh"}}
+	if p.CF == "multi" {
+		for _, it := range items {
+			out = append(out, it)
+		}
+		return append(out, []string{"1,2"}, []string{"a,b", "c"}, []string{" 1", "2 "})
+	}
 	for _, it := range items {
 		out = append(out, []string{strings.Join(it, sep)})
 	}
@@ -289,25 +337,39 @@ func CheckC03(run *ev.Run) {
 		nSpecs *= 2
 	}
 	st := map[string]int{}
-	run.Rule = "operations with 8 query parameters drawn from the fragment (string / int32 / int64 / boolean scalars and one-level arrays in every non-multi collectionFormat, " +
+	run.Rule = "three operations (query / formData (urlencoded POST) / header) with 5 parameters each drawn from the fragment (string / int32 / int64 / boolean scalars and one-level arrays in every collectionFormat incl. multi for query and formData, " +
 		"required, enum, lengths, bounds incl. exclusive, item counts, uniqueness); the generated server is compiled and, parameter by parameter, ~25 raw values (absent, empty, repeated " +
 		"key, boundary, overflow, malformed, blank and empty items, foreign separators) are sent while the other parameters hold valid values; handler-reached flag and the bound value " +
 		"are compared with the Lean `bindGen` (correspondence) and `bindRef` (the property); distinct = (parameter spec, raw value)"
 	run.Trusted = append(run.Trusted, "genlab server lab", "the projection of the handler's parameter struct (encoding/json of the generated struct)")
-	run.Assume = append(run.Assume, "fragment: query parameters only; header / path / formData / body parameters, number and strfmt formats, patterns, defaults, multi and nested arrays are not in the model (nor sent)",
+	run.Assume = append(run.Assume, "fragment: query, urlencoded formData and header parameters; path / body / multipart parameters, number and strfmt formats, patterns, defaults and nested arrays are not in the model (nor sent)",
 		"an optional parameter given with an empty value counts as not given (documented rule)", "an absent optional non-pointer field shows its zero value")
 	for si := 0; si < nSpecs; si++ {
-		var ps []*PSpecJ
-		for i := 0; i < 8; i++ {
-			ps = append(ps, genPSpec(r, fmt.Sprintf("p%d", i)))
+		type opJ struct {
+			in, method, path string
+			ps               []*PSpecJ
 		}
-		var params []interface{}
-		for _, p := range ps {
-			params = append(params, p.render())
+		ops := []*opJ{{in: "query", method: "get", path: "/q"}, {in: "formData", method: "post", path: "/f"}, {in: "header", method: "get", path: "/h"}}
+		paths := map[string]interface{}{}
+		for oi, o := range ops {
+			var params []interface{}
+			for i := 0; i < 5; i++ {
+				p := genPSpec(r, fmt.Sprintf("p%d%d", oi, i), o.in)
+				for p.validRaw() == nil { // contradictory constraints: nothing could be sent for it while the others are probed
+					p = genPSpec(r, fmt.Sprintf("p%d%d", oi, i), o.in)
+				}
+				o.ps = append(o.ps, p)
+				params = append(params, p.render())
+			}
+			opd := map[string]interface{}{"operationId": "op" + o.in, "parameters": params,
+				"responses": map[string]interface{}{"200": map[string]interface{}{"description": "ok"}}}
+			if o.in == "formData" {
+				opd["consumes"] = []string{"application/x-www-form-urlencoded"}
+			}
+			paths[o.path] = map[string]interface{}{o.method: opd}
 		}
 		doc := map[string]interface{}{"swagger": "2.0", "info": map[string]interface{}{"title": "bind", "version": "1"}, "produces": []string{"application/json"},
-			"paths": map[string]interface{}{"/op": map[string]interface{}{"get": map[string]interface{}{"operationId": "op", "parameters": params,
-				"responses": map[string]interface{}{"200": map[string]interface{}{"description": "ok"}}}}}}
+			"consumes": []string{"application/json"}, "paths": paths}
 		spec, _ := json.MarshalIndent(doc, "", " ")
 		sb, err := BuildServer("c03", spec)
 		if err != nil {
@@ -318,86 +380,105 @@ func CheckC03(run *ev.Run) {
 			}
 			continue
 		}
-		for pi, p := range ps {
-			for _, raw := range p.probes(r) {
-				q := url.Values{}
-				for oi, o := range ps {
-					if oi != pi {
-						q.Set(o.Name, o.validRaw())
+		for _, o := range ops {
+			ps := o.ps
+			for pi, p := range ps {
+				for _, raw := range p.probes(r) {
+					q := url.Values{}
+					for oi, x := range ps {
+						if oi != pi {
+							for _, v := range x.validRaw() {
+								q.Add(x.Name, v)
+							}
+						}
 					}
-				}
-				for _, v := range raw {
-					q.Add(p.Name, v)
-				}
-				rq := ServerReq{Method: "GET", URL: "/op?" + q.Encode()}
-				resp, err := sb.Do(rq)
-				if err != nil {
-					st["server-error"]++
-					continue
-				}
-				var rawJ interface{}
-				if raw != nil {
-					rawJ = raw
-				}
-				mb, _ := json.Marshal(map[string]interface{}{"op": "param.bind", "spec": p, "raw": rawJ})
-				out, merr := m.Call(mb)
-				var mr struct {
-					R   string `json:"r"`
-					Gen boundJ `json:"gen"`
-					Ref boundJ `json:"ref"`
-				}
-				if merr == nil {
-					_ = json.Unmarshal(out, &mr)
-				}
-				if mr.R != "ok" {
-					run.Broken("corr:C03:driver", "model driver failed", nil)
-					continue
-				}
-				run.Traces++
-				sj, _ := json.Marshal(p)
-				run.Case(string(sj) + "|" + fmt.Sprint(raw))
-				kind, val := observed(resp, strings.ToUpper(p.Name[:1])+p.Name[1:])
-				matches := func(b boundJ) bool {
-					switch b.K {
-					case "reject":
-						return kind == "reject"
-					case "absent":
-						return kind == "absent" || (kind == "one" && zeroLike(val))
-					case "one":
-						return kind == "one" && sameValue(kind, normVal(b.V), val)
-					case "many":
-						return kind == "many" && sameValue(kind, normVal(b.V), val)
+					for _, v := range raw {
+						q.Add(p.Name, v)
 					}
-					return false
-				}
-				replay := map[string]interface{}{"spec": json.RawMessage(spec), "parameter": p, "raw_values": raw, "request": rq, "real": resp,
-					"model_generated": mr.Gen, "reference": mr.Ref, "how": "generate the server, register a handler that prints its parameters, send the request"}
-				if !resp.Reached && (resp.Status < 400 || resp.Status > 499) {
-					run.Deviation("reject-status", fmt.Sprintf("an invalid request is answered with status %d", resp.Status), replay)
-				}
-				okRef := matches(mr.Ref)
-				okGen := matches(mr.Gen)
-				if !okRef {
-					key := "binding-differs-from-reference"
-					switch {
-					case p.Ty == "bool":
-						key = "boolean-garbage-accepted-as-false"
-					case p.IsArray && okGen:
-						key = "array-items-trimmed-or-empty-items-dropped"
+					var rq ServerReq
+					switch o.in {
+					case "query":
+						rq = ServerReq{Method: "GET", URL: o.path + "?" + q.Encode()}
+					case "formData":
+						body := q.Encode()
+						rq = ServerReq{Method: "POST", URL: o.path, Body: &body, Headers: map[string][]string{"Content-Type": {"application/x-www-form-urlencoded"}}}
+					case "header":
+						h := map[string][]string{}
+						for k, vs := range q {
+							h[http.CanonicalHeaderKey(k)] = vs
+						}
+						rq = ServerReq{Method: "GET", URL: o.path, Headers: h}
 					}
-					st["ref-mismatch:"+key]++
-					run.Deviation(key, fmt.Sprintf("the server's decision for %s=%v (reached=%v, value=%v) is not what the parameter rules say (%s)", p.Name, raw, resp.Reached, val, mr.Ref.K), replay)
-				} else {
-					st["ref-agree"]++
-				}
-				if !okGen {
-					st["gen-mismatch"]++
-					if okRef || !run.HasConcrete() {
-						run.Broken("corr:C03", "Lean `bindGen` and the generated binder disagree", replay)
+					st["requests:"+o.in]++
+					resp, err := sb.Do(rq)
+					if err != nil {
+						st["server-error"]++
+						continue
 					}
-				}
-				if len(run.Samples) < 3 && p.IsArray && kind == "many" {
-					run.Sample(map[string]interface{}{"parameter": p, "raw": raw, "bound": val})
+					var rawJ interface{}
+					if raw != nil {
+						rawJ = raw
+					}
+					mb, _ := json.Marshal(map[string]interface{}{"op": "param.bind", "spec": p, "raw": rawJ})
+					out, merr := m.Call(mb)
+					var mr struct {
+						R   string `json:"r"`
+						Gen boundJ `json:"gen"`
+						Ref boundJ `json:"ref"`
+					}
+					if merr == nil {
+						_ = json.Unmarshal(out, &mr)
+					}
+					if mr.R != "ok" {
+						run.Broken("corr:C03:driver", "model driver failed", nil)
+						continue
+					}
+					run.Traces++
+					sj, _ := json.Marshal(p)
+					run.Case(string(sj) + "|" + fmt.Sprint(raw))
+					kind, val := observed(resp, strings.ToUpper(p.Name[:1])+p.Name[1:])
+					matches := func(b boundJ) bool {
+						switch b.K {
+						case "reject":
+							return kind == "reject"
+						case "absent":
+							return kind == "absent" || (kind == "one" && zeroLike(val))
+						case "one":
+							return kind == "one" && sameValue(kind, normVal(b.V), val)
+						case "many":
+							return kind == "many" && sameValue(kind, normVal(b.V), val)
+						}
+						return false
+					}
+					replay := map[string]interface{}{"spec": json.RawMessage(spec), "parameter": p, "raw_values": raw, "request": rq, "real": resp,
+						"model_generated": mr.Gen, "reference": mr.Ref, "how": "generate the server, register a handler that prints its parameters, send the request"}
+					if !resp.Reached && (resp.Status < 400 || resp.Status > 499) {
+						run.Deviation("reject-status", fmt.Sprintf("an invalid request is answered with status %d", resp.Status), replay)
+					}
+					okRef := matches(mr.Ref)
+					okGen := matches(mr.Gen)
+					if !okRef {
+						key := "binding-differs-from-reference"
+						switch {
+						case p.Ty == "bool":
+							key = "boolean-garbage-accepted-as-false"
+						case p.IsArray && okGen:
+							key = "array-items-trimmed-or-empty-items-dropped"
+						}
+						st["ref-mismatch:"+key]++
+						run.Deviation(key, fmt.Sprintf("the server's decision for %s=%v (reached=%v, value=%v) is not what the parameter rules say (%s)", p.Name, raw, resp.Reached, val, mr.Ref.K), replay)
+					} else {
+						st["ref-agree"]++
+					}
+					if !okGen {
+						st["gen-mismatch"]++
+						if okRef || !run.HasConcrete() {
+							run.Broken("corr:C03", "Lean `bindGen` and the generated binder disagree", replay)
+						}
+					}
+					if len(run.Samples) < 3 && p.IsArray && kind == "many" {
+						run.Sample(map[string]interface{}{"parameter": p, "raw": raw, "bound": val})
+					}
 				}
 			}
 		}
